@@ -65,8 +65,13 @@ impl RegexBuilder {
     pub fn nest_limit(self, n: u32) -> (r: RegexBuilder) ensures r.o == (ReOpts { nest_limit: Some(n), ..self.o }) { RegexBuilder { o: ReOpts { nest_limit: Some(n), ..self.o } } }
 }
 
-// every rule's regex is anchored at the current position and wrapped in a non-capturing group (the lexer's longest-match loop relies on it): pinned to the text
-//@expect file=lrlex/src/lib/lexer.rs re=`RegexBuilder::new\(\&format!\("\\\\A\(\?:\{\}\)",\ re_str\)\)`
+// every rule's regex is anchored at the current position and wrapped in a non-capturing group (the lexer's longest-match loop relies
+// on it), after the text has been parsed on its own with the flags in force (it must be a regular expression by itself); with
+// ignore_whitespace the line is ended before the group is closed: pinned to the text
+//@expect file=lrlex/src/lib/lexer.rs re=`format!\("\\\\A\(\?:\{\}\)", re_str\)`
+//@expect file=lrlex/src/lib/lexer.rs re=`format!\("\\\\A\(\?:\{\}\\n\)", re_str\)`
+//@expect file=lrlex/src/lib/lexer.rs re=`\.parse\(&re_str\)\s*\.map_err\(\|e\| regex::Error::Syntax\(e\.to_string\(\)\)\)\?;`
+//@expect file=lrlex/src/lib/lexer.rs re=`let mut re = RegexBuilder::new\(&anchored\);`
 //@ctx rule_new: the builder methods of the regex crate take the builder by `&mut` and hand it back; read here as by value (the chain is linear)
 //@ctx rule_new: called with merged flags (new_with_lex_flags merges before any rule is built; the generated lexer code passes the flags it recorded after the merge)
 fn rule_new_builder(lex_flags: &LexFlags) -> (re: RegexBuilder)
@@ -77,7 +82,7 @@ fn rule_new_builder(lex_flags: &LexFlags) -> (re: RegexBuilder)
 {
     //@probe
     //@body file=lrlex/src/lib/lexer.rs fn=new nth=1 block=`let mut re = RegexBuilder::new\(` endx=`^\s*let re = re\.build\(\)\?;$`
-    //@rule n=1 `let mut re = RegexBuilder::new\(&format!\("\\\\A\(\?:\{\}\)", re_str\)\);` => `let re = RegexBuilder::new_();`
+    //@rule n=1 `let mut re = RegexBuilder::new\(&anchored\);` => `let re = RegexBuilder::new_();`
     //@rule n=1 `let mut re = re\n` => `let mut re = re\n`
     //@endbody
     re
